@@ -142,6 +142,8 @@ pub struct ArcPlan {
     pub shuffle_records: bool,
     pub gaps: bool,
     pub decoy_labels: bool,
+    /// Count word and Info table before the file bodies (the last body then ends the data region)
+    pub tables_first: bool,
     /// error variants
     pub drop_count_label: bool,
     pub drop_info_label: bool,
@@ -156,55 +158,75 @@ pub fn arc_build(files: &[(String, Vec<u8>)], plan: &ArcPlan, rng: &mut Rng) -> 
     let mut a = RefArchive::new(false);
     let base = if plan.padded_header { 0x60 } else { 0 };
     a.data = vec![0u8; base];
-    // bodies
+    // bodies (placed before or after the tables)
     let mut order: Vec<usize> = (0..n).collect();
     if plan.shuffle_bodies {
         rng.shuffle(&mut order);
     }
-    let mut off = vec![0usize; n];
-    if !plan.padded_header {
+    let mut off = vec![0usize; n]; // relative to the start of the body area
+    let mut bodies: Vec<u8> = Vec::new();
+    if !plan.padded_header && !plan.tables_first {
         // the format detects the header by a zero first word: keep the first word non-zero
-        a.data.extend_from_slice(&[0xAB, 0xCD, 0xEF, 0x01]);
+        bodies.extend_from_slice(&[0xAB, 0xCD, 0xEF, 0x01]);
     }
-    let data_label_at = a.data.len();
+    let data_label_rel = bodies.len();
     for i in order {
         if plan.gaps {
             let g = rng.range(0, 9);
-            a.data.extend(std::iter::repeat(0x5A).take(g));
+            bodies.extend(std::iter::repeat(0x5A).take(g));
         }
-        off[i] = a.data.len() - base;
-        a.data.extend(&files[i].1);
+        off[i] = bodies.len();
+        bodies.extend(&files[i].1);
     }
-    while a.data.len() % 4 != 0 {
-        a.data.push(0);
+    let body_base; // address of the body area in the data region
+    let count_at;
+    let info_at;
+    let rec_at;
+    let table_len = 4 + 16 * n;
+    if plan.tables_first {
+        count_at = a.data.len();
+        info_at = count_at + 4;
+        rec_at = info_at;
+        a.data.extend(std::iter::repeat(0).take(table_len));
+        body_base = a.data.len();
+        a.data.extend(&bodies); // the last body ends the data region: no trailing padding
+    } else {
+        body_base = a.data.len();
+        a.data.extend(&bodies);
+        while a.data.len() % 4 != 0 {
+            a.data.push(0);
+        }
+        if plan.gaps && rng.bool() {
+            a.data.extend_from_slice(&[0; 8]);
+        }
+        count_at = a.data.len();
+        info_at = count_at + 4;
+        rec_at = info_at;
+        a.data.extend(std::iter::repeat(0).take(table_len));
     }
-    if plan.gaps && rng.bool() {
-        a.data.extend_from_slice(&[0; 8]);
-    }
-    let count_at = a.data.len();
-    a.data.extend_from_slice(&(n as u32).to_le_bytes());
-    let info_at = a.data.len();
+    let data_label_at = body_base + data_label_rel;
+    let final_len = a.data.len();
+    a.data[count_at..count_at + 4].copy_from_slice(&(n as u32).to_le_bytes());
     let mut rec_order: Vec<usize> = (0..n).collect();
     if plan.shuffle_records {
         rng.shuffle(&mut rec_order);
     }
     for (slot, i) in rec_order.iter().enumerate() {
-        let at = a.data.len();
-        a.data.extend_from_slice(&[0; 4]); // name cell
-        a.data.extend_from_slice(&(slot as u32).to_le_bytes());
+        let at = rec_at + 16 * slot;
         let mut size = files[*i].1.len() as u32;
-        let mut offset = off[*i] as u32;
+        let mut offset = (body_base + off[*i] - base) as u32;
         if plan.out_of_range_record == Some(slot) {
             size = size.max(1);
             match rng.below(4) {
-                0 => size = (a.data.len() + 16 * n + 1000) as u32,
+                0 => size = (final_len + 1000) as u32,
                 1 => offset = 0x00FF_FFF0,
                 2 => offset = 0xFFFF_FFF0, // + 0x60 does not fit in 32 bits
-                _ => offset = (count_at + 4 + 16 * n - base + 1) as u32,
+                _ => offset = (final_len - base + 1) as u32,
             }
         }
-        a.data.extend_from_slice(&size.to_le_bytes());
-        a.data.extend_from_slice(&offset.to_le_bytes());
+        a.data[at + 4..at + 8].copy_from_slice(&(slot as u32).to_le_bytes());
+        a.data[at + 8..at + 12].copy_from_slice(&size.to_le_bytes());
+        a.data[at + 12..at + 16].copy_from_slice(&offset.to_le_bytes());
         if plan.nameless_record != Some(slot) {
             a.text.insert(at, files[*i].0.clone());
         }
